@@ -3,7 +3,7 @@
     proofs in Issuance/*.v.  Each theorem is followed by [Print Assumptions]. *)
 From Coq Require Import List Bool Arith Lia NArith.
 From CM Require Import Gen.Consts Issuance.Model Issuance.Proofs Issuance.Invariants Issuance.OwnFault
-  Issuance.NoReissueTL Issuance.NoReissue Issuance.AgreeTL Issuance.Agree Issuance.Refuted Issuance.Check Issuance.SpecLink Issuance.Takeover.
+  Issuance.NoReissueTL Issuance.NoReissue Issuance.AgreeTL Issuance.Agree Issuance.Refuted Issuance.Check Issuance.SpecLink Issuance.Takeover Issuance.ManageTL Issuance.ManageTakeover Issuance.FreshTL Issuance.Fresh Issuance.Examples.
 Import ListNotations.
 Close Scope N_scope.
 Open Scope nat_scope.
@@ -83,8 +83,8 @@ Print Assumptions C01_no_reissue_refuted_spelling.
 
 (** F3 (partial: canonical spellings; requests on the name are not cancelled and their existence
     checks not falsified; no unlocked load of ManageSync overlaps a save [ok3]; stated for callers
-    whose cached certificate is not due -- that a caller never ends with a due certificate after
-    its own obtain/renew is not proved): every ManageSync caller that returned successfully holds
+    whose cached certificate is not due -- that this is always so for callers without a fault of
+    their own is C01_callers_agree_not_due_partial below): every ManageSync caller that returned successfully holds
     in its cache exactly the certificate that storage holds, hence all of them the same one *)
 Theorem C01_callers_agree_partial : forall cs st n L es s,
   canon0 n L cs -> runs (ok3 n) (init_state cs st) es s ->
@@ -104,6 +104,45 @@ Theorem C01_callers_agree_pairwise_partial : forall cs st n L es s t1 th1 ce1 t2
 Proof. exact callers_agree_pairwise. Qed.
 Print Assumptions C01_callers_agree_pairwise_partial.
 
+(** F3, all clauses, for callers without a fault of their own (partial: canonical spellings; the
+    restrictions [ok3] and [okm]: requests on the name not cancelled, existence checks not
+    falsified, no fault inside a save, no unlocked ManageSync load overlapping a save; issuers do
+    not hand out certificates that are already due; the stored key matches the stored certificate
+    at the start): every ManageSync caller that returned successfully holds exactly the stored
+    certificate, and that certificate is not due -- after its own obtain or renewal, after
+    waiting for somebody else's, or on first sight *)
+Theorem C01_callers_agree_not_due_partial : forall cs st n L es s,
+  canon0 n L cs -> (forall c, In c cs -> touches n c -> c_issdue c = false) -> stored_match st n ->
+  runs (ok3m n) (init_state cs st) es s ->
+  forall t th, thread_at s t th -> touches n (cfg th) -> c_prog (cfg th) = PManage ->
+    tpc th = PDone ROk -> flt th = false ->
+    exists ce, seen th = Some ce /\ c_due ce = false /\ sto (sh s) (SK n KCrt) = Some (VCrt ce).
+Proof. exact callers_agree_not_due. Qed.
+Print Assumptions C01_callers_agree_not_due_partial.
+
+(** ... hence any two of them hold the same certificate, which is not due *)
+Theorem C01_callers_agree_not_due_pairwise_partial : forall cs st n L es s t1 th1 t2 th2,
+  canon0 n L cs -> (forall c, In c cs -> touches n c -> c_issdue c = false) -> stored_match st n ->
+  runs (ok3m n) (init_state cs st) es s ->
+  thread_at s t1 th1 -> touches n (cfg th1) -> c_prog (cfg th1) = PManage -> tpc th1 = PDone ROk -> flt th1 = false ->
+  thread_at s t2 th2 -> touches n (cfg th2) -> c_prog (cfg th2) = PManage -> tpc th2 = PDone ROk -> flt th2 = false ->
+  exists ce, seen th1 = Some ce /\ seen th2 = Some ce /\ c_due ce = false.
+Proof. exact callers_agree_not_due_pairwise. Qed.
+Print Assumptions C01_callers_agree_not_due_pairwise_partial.
+
+(** the hypotheses are met by a run over a due bundle: the first caller renews while the second
+    one, which has seen the due certificate, queues for the lock; it then finds the renewal done,
+    reloads; both end with the new certificate after exactly one issuance *)
+Example C01_callers_agree_not_due_nontrivial :
+  let cs := [manage_canon; manage_canon] in
+  canon0 0 0 cs /\ (forall c, In c cs -> touches 0 c -> c_issdue c = false) /\ stored_match due_bundle 0 /\
+  exists s es th0 th1 ce,
+    runs (ok3m 0) (init_state cs due_bundle) es s /\
+    thread_at s 0 th0 /\ thread_at s 1 th1 /\ tpc th0 = PDone ROk /\ tpc th1 = PDone ROk /\
+    flt th0 = false /\ flt th1 = false /\ seen th0 = Some ce /\ seen th1 = Some ce /\ c_due ce = false /\
+    length (filter (fun e => match e_op e with OIssS _ => true | _ => false end) es) = 1.
+Proof. exact ex_callers_agree_not_due_nontrivial. Qed.
+
 (** the restriction [ok3] is met by non-trivial runs: the second caller arrives, finds nothing,
     queues for the lock while the first one issues and saves, then takes its turn, finds the
     certificate under the lock and loads it *)
@@ -113,14 +152,7 @@ Example C01_callers_agree_nontrivial :
     thread_at s 0 th0 /\ thread_at s 1 th1 /\ tpc th0 = PDone ROk /\ tpc th1 = PDone ROk /\
     seen th0 = Some ce /\ seen th1 = Some ce /\ c_due ce = false /\
     length (filter (fun e => match e_op e with OIssS _ => true | _ => false end) es) = 1.
-Proof.
-  destruct (run_chk 0 (init_state [manage_canon; manage_canon] no_sto) (sched ([1;1;1] ++ rep 18 0 ++ rep 10 1)))
-    as [[s es]|] eqn:R; [|vm_compute in R; discriminate].
-  exists s, es. pose proof (run_chk_runs _ _ _ _ _ R) as Hr.
-  vm_compute in R. inversion R; subst s es; clear R.
-  do 3 eexists. split; [exact Hr|]. unfold thread_at; simpl.
-  split; [reflexivity|]. split; [reflexivity|]. repeat split; reflexivity.
-Qed.
+Proof. exact ex_callers_agree_nontrivial. Qed.
 
 (** F4a: as long as no Unlock call itself fails, every reachable state with an unfinished
     request has a step that needs no fault (a waiter is blocked only while a live holder can move) *)
@@ -170,15 +202,32 @@ Example C01_takeover_nontrivial :
     thread_at s 0 th0 /\ thread_at s 1 th1 /\ tpc th0 = PDone RErr /\ flt th0 = true /\
     tpc th1 = PDone ROk /\ flt th1 = false /\
     length (filter (fun e => match e_op e with OIssS _ => true | _ => false end) es) = 2.
-Proof.
-  destruct (run_sok 0 (init_state [renew_canon; renew_canon] due_bundle)
-              (sched [0;0;1;0;0;0;0] ++ [Label 0 FErr true] ++ sched (rep 2 0 ++ rep 12 1)))
-    as [[s es]|] eqn:R; [|vm_compute in R; discriminate].
-  exists s, es. pose proof (run_sok_runs _ _ _ _ _ R) as Hr.
-  vm_compute in R. inversion R; subst s es; clear R.
-  do 2 eexists. split; [exact Hr|]. split; [intros [] ; discriminate|].
-  unfold thread_at; simpl. split; [reflexivity|]. split; [reflexivity|]. repeat split; reflexivity.
-Qed.
+Proof. exact ex_takeover_nontrivial. Qed.
+
+(** F4c for ManageSync (partial: canonical spellings; no fault of any kind inside the Stores of a
+    save of the bundle; no unlocked load of ManageSync overlapping a save [okm] -- the two excluded
+    classes are exactly the known findings, refuted below): the stored key belongs to the stored
+    certificate from the start (or a part is missing); whatever the other requests on the name do
+    and however they fail -- in the issuer, in callbacks, by cancellation or panic, also while they
+    hold the turn -- a ManageSync caller returns an error only if a fault was injected into one of
+    its own operations: it waits, takes its turn, obtains or renews or finds the certificate *)
+Theorem C01_manage_fails_only_by_own_fault_partial : forall cs st n L es s,
+  canon0 n L cs -> stored_match st n -> runs (okm n) (init_state cs st) es s ->
+  forall t th r, thread_at s t th -> touches n (cfg th) -> c_prog (cfg th) = PManage ->
+    tpc th = PDone r -> r <> ROk -> flt th = true.
+Proof. exact manage_fails_only_by_own_fault. Qed.
+Print Assumptions C01_manage_fails_only_by_own_fault_partial.
+
+(** the hypotheses are met by a run in which the leader (ObtainCertSync) panics inside the issuer
+    while a ManageSync caller waits for the lock; the waiter takes over, issues, saves, loads *)
+Example C01_manage_takeover_nontrivial :
+  let cs := [TCfg (PObtain false) 0 0 0 0 false false false false; manage_canon] in
+  canon0 0 0 cs /\ stored_match no_sto 0 /\
+  exists s es th0 th1 ce,
+    runs (okm 0) (init_state cs no_sto) es s /\
+    thread_at s 0 th0 /\ thread_at s 1 th1 /\ tpc th0 = PDone RPanic /\ flt th0 = true /\
+    tpc th1 = PDone ROk /\ flt th1 = false /\ seen th1 = Some ce /\ sto (sh s) (SK 0 KCrt) = Some (VCrt ce).
+Proof. exact ex_manage_takeover_nontrivial. Qed.
 
 (** R: for ManageSync the same statement is false: its first load runs outside the issue lock *)
 Theorem C01_manage_load_races_renew_save_refuted :
@@ -206,16 +255,7 @@ Example C01_hypotheses_nontrivial :
   agree_on_lock cs /\ canon0 0 0 cs /\
   exists s th1 th2, reachable cs no_sto s /\ thread_at s 0 th1 /\ thread_at s 1 th2 /\
     in_span th1 = true /\ tpc th2 = PLockWait.
-Proof.
-  simpl. split; [|split].
-  - intros c1 c2 [<-|[<-|[]]] [<-|[<-|[]]] _; reflexivity.
-  - intros c [<-|[<-|[]]] _; unfold on_key, cert_prog, force_eff; simpl; auto.
-  - destruct (run (init_state [manage_canon; manage_canon] no_sto) (sched (rep 7 0 ++ rep 3 1))) as [[s es]|] eqn:R;
-      [|vm_compute in R; discriminate].
-    exists s. assert (Hr : reachable [manage_canon; manage_canon] no_sto s) by (eapply reachable_run; eauto).
-    vm_compute in R. inversion R; subst s es; clear R.
-    do 2 eexists. split; [exact Hr|]. unfold thread_at; simpl. split; [reflexivity|]. split; [reflexivity|]. auto.
-Qed.
+Proof. exact ex_hypotheses_nontrivial. Qed.
 
 (** tie to the source (translator T, re-read on every run): the statement order the program
     counters follow -- obtainCert: pre-check, checkStorage, acquireLock, and inside the attempt
